@@ -791,7 +791,7 @@ func (g *gen) locOf(v ssa.Value) *loc {
 		st := pt.Underlying().(*types.Struct)
 		name := g.structSort(pt)
 		f := g.structFields(st)[x.Field]
-		return &loc{kind: 1, p: g.val(x.X).S, sname: name, fidx: x.Field, f: f}
+		return &loc{kind: 1, p: g.operand(x.X).S, sname: name, fidx: x.Field, f: f}
 	case *ssa.IndexAddr:
 		idx := g.toIdx(g.val(x.Index))
 		switch u := x.X.Type().Underlying().(type) {
@@ -802,7 +802,7 @@ func (g *gen) locOf(v ssa.Value) *loc {
 		case *types.Pointer:
 			a := u.Elem().Underlying().(*types.Array)
 			es, _ := g.sortOf(a.Elem())
-			return &loc{kind: 2, reg: g.val(x.X).S, idx: idx, elemT: a.Elem(), elemS: es}
+			return &loc{kind: 2, reg: g.operand(x.X).S, idx: idx, elemT: a.Elem(), elemS: es}
 		}
 	}
 	return nil
